@@ -274,14 +274,27 @@ def run_harness(crate, cwd, h, tier, outdir):
 # replay of counterexamples
 
 
-def extract_playback_test(text):
-    """Pull the generated unit test out of `--concrete-playback=print` output."""
-    m = re.search(r"```\s*\n(.*?)```", text, re.S)
-    if not m:
-        return None
-    body = m.group(1)
-    body = re.sub(r"^\s*///.*\n", "", body, flags=re.M)
-    return body.strip() + "\n"
+def extract_playback_tests(text):
+    """Pull the generated unit tests out of `--concrete-playback=print` output.
+
+    Kani prints one test per failed check *and* one per satisfied cover; returns
+    [(kind, description, name, source)] with the cover tests last."""
+    out = []
+    for m in re.finditer(r"```\s*\n(.*?)```", text, re.S):
+        body = m.group(1)
+        km = re.search(r"Check for `(\w+)`: (.*)", body)
+        kind, desc = (km.group(1), km.group(2).strip()) if km else ("?", "")
+        src = re.sub(r"^\s*///.*\n", "", body, flags=re.M).strip() + "\n"
+        nm = re.search(r"fn (kani_concrete_playback_\w+)", src)
+        if nm:
+            out.append((kind, desc, nm.group(1), src))
+    out.sort(key=lambda t: t[0] == "cover")
+    seen, uniq = set(), []
+    for t in out:
+        if t[2] not in seen:
+            seen.add(t[2])
+            uniq.append(t)
+    return uniq
 
 
 def module_path_of(hname):
@@ -300,6 +313,7 @@ def inject_test(scratch, hname, test_src):
 
 
 def scratch_crate(crate, tag):
+    """A throw-away copy of the harness crate (fixed path per crate and tag so that the native build is reused)."""
     base = os.path.join(WORK, "replay", "%s-%s" % (crate, tag))
     if os.path.exists(base):
         shutil.rmtree(base)
@@ -316,52 +330,81 @@ def drop_scratch(d):
     shutil.rmtree(os.path.dirname(d), ignore_errors=True)
 
 
-def run_playback(scratch, test_name, timeout=1500, release=False):
-    cmd = ["cargo", "kani", "playback", "-Z", "concrete-playback"]
+def run_playback(scratch, crate, test_name, timeout=1500, release=False):
+    cmd = ["cargo", "kani", "playback", "-Z", "concrete-playback", "-Z", "stubbing"]
     if release:
         cmd += ["--release"]
-    cmd += ["--", test_name, "--nocapture"]
+    cmd += ["--", test_name, "--nocapture", "--test-threads", "1"]
     logf = os.path.join(scratch, "playback%s.log" % ("-release" if release else ""))
-    rc, wall, _ = run_cmd(cmd, scratch, timeout, 24, logf)
+    env_backup = ENV.get("CARGO_TARGET_DIR")
+    ENV["CARGO_TARGET_DIR"] = os.path.join(TARGET_ROOT, "playback-" + crate)
+    try:
+        rc, wall, _ = run_cmd(cmd, scratch, timeout, 24, logf)
+    finally:
+        if env_backup is None:
+            ENV.pop("CARGO_TARGET_DIR", None)
+        else:
+            ENV["CARGO_TARGET_DIR"] = env_backup
     return rc, open(logf, errors="replace").read()
 
 
-def replay_counterexample(pid, crate, h, outdir):
-    """Ask Kani for the concrete values of the counterexample, run them natively.
+def _playback_verdict(out, test_name):
+    """True = the test ran and failed (violation reproduced), False = ran and passed, None = did not run."""
+    if "`kani::assume` should always hold" in out:
+        return False  # the concrete values violate a harness assumption: not a counterexample of the property
+    m = re.search(r"test \S*%s \.\.\. (\w+)" % re.escape(test_name), out)
+    if m:
+        return m.group(1) == "FAILED"
+    if re.search(r"running 1 test", out) and ("panicked at" in out or "test result: FAILED" in out):
+        return True
+    return None
 
-    Returns dict(reproduced=bool|None, path=..., ...)"""
-    tag = hashlib.sha1(h.name.encode()).hexdigest()[:10]
-    scratch = scratch_crate(crate, tag)
+
+def replay_counterexample(pid, crate, h, outdir):
+    """Ask Kani for the concrete values of the counterexample(s), run them natively (dev profile, then release).
+
+    Returns (record, path)."""
+    scratch = scratch_crate(crate, "replay")
     logf = os.path.join(outdir, h.short + ".playback-gen.log")
     cmd = ["cargo", "kani", "--target-dir", target_dir(crate), "--harness", h.name, "--exact",
            "-Z", "concrete-playback", "--concrete-playback=print"] + h.extra_args
     rc, wall, _ = run_cmd(cmd, scratch, max(h.timeout * 2, 600), max(h.mem, 12), logf)
     text = open(logf, errors="replace").read()
-    test_src = extract_playback_test(text)
+    tests = extract_playback_tests(text)
+    failing = [t for t in tests if t[0] != "cover"]
     os.makedirs(os.path.join(REPLAYS, pid), exist_ok=True)
     rpath = os.path.join(REPLAYS, pid, h.short + ".json")
     rec = {"property_id": pid, "crate": crate, "harness": h.name, "extra_args": h.extra_args,
-           "generated_test": test_src, "reproduced": None}
-    if not test_src:
-        rec["note"] = "Kani produced no concrete playback test (rc=%s)" % rc
+           "tests": [{"check_kind": k, "check": d, "test_name": n, "generated_test": src,
+                      "concrete_values": re.findall(r"// (.*)\n\s*vec!\[([^\]]*)\]", src)} for k, d, n, src in failing[:4]],
+           "reproduced": None}
+    if not failing:
+        rec["note"] = "Kani produced no concrete playback test for a failed check (rc=%s)" % rc
         json.dump(rec, open(rpath, "w"), indent=1)
         drop_scratch(scratch)
         return rec, rpath
-    m = re.search(r"fn (kani_concrete_playback_\w+)", test_src)
-    test_name = m.group(1)
-    rec["test_name"] = test_name
-    rec["concrete_values"] = re.findall(r"// (.*)\n\s*vec!\[([^\]]*)\]", test_src)
-    inject_test(scratch, h.name, test_src)
-    rc, out = run_playback(scratch, test_name)
-    rec["native_dev_rc"] = rc
-    rec["native_dev_tail"] = out[-3000:]
-    ran = re.search(r"running 1 test", out) is not None
-    failed = ran and (re.search(r"test result: FAILED", out) is not None or "panicked at" in out)
-    if not ran:
-        rec["reproduced"] = None
-        rec["note"] = "native playback did not run (build problem?)"
-    else:
-        rec["reproduced"] = bool(failed)
+    for t in rec["tests"]:
+        inject_test(scratch, h.name, t["generated_test"])
+    any_ran = False
+    for t in rec["tests"]:
+        rc, out = run_playback(scratch, crate, t["test_name"])
+        v = _playback_verdict(out, t["test_name"])
+        t["native_dev"] = v
+        t["native_dev_tail"] = out[-2500:]
+        if v is not None:
+            any_ran = True
+        if v:
+            rc2, out2 = run_playback(scratch, crate, t["test_name"], release=True)
+            t["native_release"] = _playback_verdict(out2, t["test_name"])
+            rec["reproduced"] = True
+            rec["concrete_values"] = t["concrete_values"]
+            rec["failed_check"] = t["check"]
+            break
+    if rec["reproduced"] is None:
+        if any_ran:
+            rec["reproduced"] = False
+        else:
+            rec["note"] = "native playback did not run (build problem?)"
     json.dump(rec, open(rpath, "w"), indent=1)
     drop_scratch(scratch)
     return rec, rpath
@@ -370,20 +413,28 @@ def replay_counterexample(pid, crate, h, outdir):
 def replay_file(path):
     rec = json.load(open(path))
     crate = rec["crate"]
-    tag = "manual"
-    scratch = scratch_crate(crate, tag)
-    inject_test(scratch, rec["harness"], rec["generated_test"])
-    rc, out = run_playback(scratch, rec["test_name"])
+    scratch = scratch_crate(crate, "manual")
+    tests = rec.get("tests") or []
+    for t in tests:
+        inject_test(scratch, rec["harness"], t["generated_test"])
+    verdict = None
+    for t in tests:
+        rc, out = run_playback(scratch, crate, t["test_name"])
+        v = _playback_verdict(out, t["test_name"])
+        print(out[-3000:])
+        if v:
+            verdict = True
+            print("REPLAY: violation reproduced natively (property=%s harness=%s check=%s values=%s)" % (
+                rec["property_id"], rec["harness"], t["check"], t["concrete_values"]))
+            break
+        if v is False and verdict is None:
+            verdict = False
     drop_scratch(scratch)
-    print(out[-4000:])
-    ran = "running 1 test" in out
-    failed = ran and ("test result: FAILED" in out or "panicked at" in out)
-    if not ran:
+    if verdict:
+        return 1
+    if verdict is None:
         print("REPLAY: could not run")
         return 2
-    if failed:
-        print("REPLAY: violation reproduced natively (property=%s harness=%s)" % (rec["property_id"], rec["harness"]))
-        return 1
     print("REPLAY: the stored counterexample no longer fails")
     return 0
 
@@ -514,7 +565,7 @@ def run_check(spec, tier, seed):
         log("[%s] counterexample in %s: %s -- replaying natively" % (pid, h.short, r["reason"]))
         rec, rpath = replay_counterexample(pid, crate, h, outdir)
         r["replay"] = {"path": rpath, "reproduced": rec.get("reproduced"), "values": rec.get("concrete_values")}
-        if h.unwind_failure_is_violation and rec.get("reproduced") is None and not rec.get("generated_test"):
+        if h.unwind_failure_is_violation and rec.get("reproduced") is None and not rec.get("tests"):
             # non-termination has no finite counterexample trace to play back; handled by spec hook
             hook = spec.get("nonterm_replay")
             if hook:
